@@ -9,8 +9,10 @@ use crate::model::{Limits, Machine, Scoping, V};
 use crate::tape::Tape;
 use std::collections::BTreeSet;
 
-/// after finding F9 is repaired: arrays with several dictionary entries may be joined
-pub const MULTI_KEY_JOIN: bool = true;
+/// Arrays with several dictionary entries are not joined here: neither the statement nor the repository's tests fix
+/// the order in which the dictionary values follow the sequence (rrss sorts by key text since the repair of F9), so
+/// a different deterministic order must not raise an alarm. That the order is the same every time is C10's subject.
+pub const MULTI_KEY_JOIN: bool = false;
 
 pub struct MutGen<'t, 'a> {
     pub t: &'t mut Tape<'a>,
@@ -86,6 +88,20 @@ impl<'t, 'a> MutGen<'t, 'a> {
                         op: None,
                     });
                     self.labels.insert("join_with_dictionary_part".into());
+                }
+                // a list used as a queue: elements rolled off the front and others rocked onto the back, a few rounds
+                // (the storage behind it wraps around)
+                if n >= 2 && self.t.chance(1, 3) {
+                    self.labels.insert("queue_history".into());
+                    for _ in 0..1 + self.t.pick(3) {
+                        for _ in 0..1 + self.t.pick(n) {
+                            out.push(Stmt::Pop { array: pvar(x), dest: None });
+                        }
+                        for _ in 0..1 + self.t.pick(4) {
+                            let e = if self.t.chance(1, 12) { num(7.0) } else { strlit(&gen_string(self.t)) };
+                            out.push(Stmt::Push { array: pvar(x), value: Some(PushRhs::List(vec![e])) });
+                        }
+                    }
                 }
                 out
             }
@@ -174,7 +190,7 @@ impl<'t, 'a> MutGen<'t, 'a> {
             }
             let cur = m.peek(&x).cloned();
             // operand form: variable, element of an array, or pronoun
-            let form = self.t.weighted(&[60, 20, 20]);
+            let form = self.t.weighted(&[55, 18, 17, 10]);
             let (operand, pre): (Primary, Vec<Stmt>) = match form {
                 0 => (pvar(&x), vec![]),
                 1 => {
@@ -193,12 +209,19 @@ impl<'t, 'a> MutGen<'t, 'a> {
                         ],
                     )
                 }
-                _ => {
+                2 => {
                     self.labels.insert("pronoun_operand".into());
                     (Primary::Ident(Ident::Pronoun), vec![say(bin(BinOp::Plus, strlit("it="), var(&x)))])
                 }
+                _ => {
+                    // through a pronoun inside a function whose parameter has the operand's name (it shadows the global):
+                    // the statements are wrapped into the function further down
+                    self.labels.insert("pronoun_operand_in_shadowing_function".into());
+                    (Primary::Ident(Ident::Pronoun), vec![])
+                }
             };
             s.extend(pre);
+            let wrap_at = s.len();
             let mut watched: Vec<Name> = vec![x.clone()];
             if form == 1 {
                 watched.push(self.vars[5].clone());
@@ -218,7 +241,7 @@ impl<'t, 'a> MutGen<'t, 'a> {
                         }
                     };
                     // without `into` the operand must be an identifier
-                    let into = if matches!(operand, Primary::Subscript(..)) { true } else { self.t.chance(1, 2) };
+                    let into = if matches!(operand, Primary::Subscript(..)) { true } else if form == 3 { false } else { self.t.chance(1, 2) };
                     let dest = if into {
                         watched.push(d.clone());
                         Some(Lhs::Ident(Ident::Name(d.clone())))
@@ -233,6 +256,25 @@ impl<'t, 'a> MutGen<'t, 'a> {
                     self.labels.insert(format!("turn:{:?}", dir));
                     s.push(Stmt::Rounding { dir, operand: pe(operand) });
                 }
+            }
+            if form == 3 {
+                // F takes x / say "it=" plus x / <the mutation, on `it`> / say x / give back x   ...   put F taking <x changed> into d
+                let mstmt = s.split_off(wrap_at);
+                let fname = Name::Simple(format!("shadowing{}", ["a", "b", "c", "d", "e"][s.len() % 5]));
+                let mut body = vec![say(bin(BinOp::Plus, strlit("it="), var(&x)))];
+                body.extend(mstmt);
+                body.push(say(bin(BinOp::Plus, strlit("in:"), var(&x))));
+                body.push(Stmt::Return { value: var(&x) });
+                let arg = match &cur {
+                    Some(V::Str(_)) => bin(BinOp::Plus, var(&x), strlit("zz")),
+                    Some(V::Num(_)) => bin(BinOp::Plus, var(&x), num(0.5)),
+                    _ => var(&x),
+                };
+                let tmp = Name::Simple("shadowarg".into());
+                s.push(Stmt::Function { name: fname.clone(), params: vec![x.clone()], body });
+                s.push(put(arg, &tmp));
+                s.push(put(Expr::Primary(Primary::Call(fname, vec![var(&tmp)])), &d));
+                watched.push(d.clone());
             }
             // dump everything that could have changed
             let mut m = Machine::new(&self.stdin, Scoping::Dynamic, lim);
